@@ -349,3 +349,33 @@ def check_archive(ck, automator, violation, stats, sd, spec, label, scratch, rng
                                                                  "[" + "; ".join(s_lit(x) for x in sorted(will_exist)) + "]")
     tar.close()
     return body, dict(label=label, spec=spec, trans=m_trans)
+
+
+def replay(ck, path):
+    """import failure: try the import again; archive findings: rebuild the dictionary and examine the archive again"""
+    doc = json.load(open(path))
+    r = doc["replay"]
+    try:
+        from onsager import automator
+    except Exception as e:
+        print("import onsager.automator -> %r" % (e,)); print("VIOLATION reproduced [c30-import]"); return 1
+    if "cfg" not in r: print("import works now; not reproduced"); return 0
+    from onsager import OnsagerCalc, crystal
+    c = r["cfg"]
+    crys = crystal.Crystal(np.array(c["lattice"]), [[np.array(u) for u in b] for b in c["basis"]])
+    chem = c["chem"]
+    sl, jn = crys.sitelist(chem), crys.jumpnetwork(chem, c["cutoff"])
+    d = OnsagerCalc.Interstitial(crys, chem, sl, jn) if c["calculator"] == "interstitial" else OnsagerCalc.VacancyMediated(crys, chem, sl, jn, 1)
+    with warnings.catch_warnings():
+        warnings.simplefilter("ignore")
+        sd = d.makesupercells(np.array(c["supercell"], dtype=int))
+    found = {}
+    stats = dict(archives=0, members=0, structure_files=0, trans_files=0, perl_runs=0, make_runs=0, rules=0, tags=0)
+    scratch = tempfile.mkdtemp(prefix="c30_")
+    try:
+        check_archive(ck, automator, lambda k, m, rep: found.setdefault(k, m), stats, sd, c, c["label"], scratch, ck.rng)
+    finally:
+        shutil.rmtree(scratch, ignore_errors=True)
+    for k, m in found.items(): print("VIOLATION reproduced [%s]: %s" % (k, m))
+    if not found: print("not reproduced by the direct evaluator (the Coq checkers are run by ./check C30)")
+    return 1 if found else 0
